@@ -131,6 +131,18 @@ func runJSONStream(seed int64, n int, out, backendSpec string) *RunReport {
 			for i := range docs {
 				docs[i] = keyDomSanitize(h.doc(fmt.Sprintf("%08x-0000-4000-8000-%012x", i, g.Intn(1<<30)))).(map[string]interface{})
 			}
+			for i := range docs {
+				// top-level field names that contain a dot are ordinary names for export/import
+				if g.Chance(0.4) {
+					docs[i]["p.q"] = int64(i)
+				}
+				if g.Chance(0.2) {
+					docs[i]["n.a"] = "literal"
+				}
+				if g.Chance(0.2) {
+					docs[i]["e"] = pickOf(g, []interface{}{[]interface{}{}, map[string]interface{}{}, []interface{}{[]interface{}{}}})
+				}
+			}
 			if ndocs > 0 {
 				rec(&Op{Kind: "Insert", Coll: "src", Docs: cloneDocs(docs)})
 				rec(&Op{Kind: "Insert", Coll: "other", Docs: cloneDocs(docs[:1])})
